@@ -80,6 +80,7 @@ def run(chk: Check):
     chk.assumptions = ["the theorem says the optimality condition has exactly one solution; that spsolve returns it is checked numerically: residual <= 1e3*eps*(1+16*lambda)*max|y|"]
     chk.proof_stage(PROP_FILE)
     n_hp = 120 if chk.tier == "quick" else 2000
+    history = []
     for _ in range(n_hp):
         n = rng.choice([3, 4, 5, 8, 17, 40, 100, 333, 1000, 2000, rng.randint(3, 2000)])
         shape = rng.choice(["walk", "walk", "alternating", "linear", "constant", "two_valued"])
@@ -94,11 +95,23 @@ def run(chk: Check):
         scale = max(float(np.max(np.abs(y))), 1e-300)
         if len(cycle) != n or len(trend) != n:
             chk.fail("hp_filter changed the length of the series", case); continue
+        if not (np.all(np.isfinite(trend)) and np.all(np.isfinite(cycle))):
+            chk.fail(f"hp_filter returned non-finite values on a finite series (n={n}, lambda={lam!r})", case); continue
+        if len(history) < 40:
+            history.append((y.copy(), lam, cycle.tobytes(), trend.tobytes(), case))
         if np.max(np.abs((cycle + trend) - y)) > 4 * EPS * scale:
             chk.fail(f"cycle + trend differs from the input by {float(np.max(np.abs((cycle + trend) - y)))!r}", case)
         res = np.max(np.abs(hp_matrix_apply(trend, lam) - y))
         if not (res <= 1e3 * EPS * (1 + 16 * lam) * scale):
             chk.fail(f"trend violates the HP optimality condition (I + lambda K'K) trend = y: residual {float(res)!r} for max|y| {scale!r}, lambda {lam!r}", case)
+    # no dependence on earlier calls: the same (series, lambda) filtered again after all the calls above gives the same bits
+    for y, lam, cb, tb, case in history:
+        with warnings.catch_warnings():
+            warnings.simplefilter("ignore")
+            c2, t2 = hp_filter(y.copy(), lam)
+        chk.count("hp:repeat_after_other_calls")
+        if c2.tobytes() != cb or t2.tobytes() != tb:
+            chk.fail(f"hp_filter depends on earlier calls: the same series and lambda give a different result when filtered again (max diff {float(np.max(np.abs(t2 - np.frombuffer(tb)))):.3g})", case)
     # exact rational solve on small dyadic inputs
     for _ in range(25 if chk.tier == "quick" else 300):
         n = rng.randint(3, 40)
@@ -107,6 +120,9 @@ def run(chk: Check):
         with warnings.catch_warnings():
             warnings.simplefilter("ignore")
             cycle, trend = hp_filter(y.copy(), lam)
+        if not np.all(np.isfinite(trend)):
+            chk.fail(f"hp_filter returned non-finite values on a finite series (n={n}, lambda={lam})", {"case": {"kind": "hp_exact", "n": n, "lambda": lam, "y": y.tolist()}})
+            continue
         ex = exact_hp(y.tolist(), Fraction(lam))
         err = max(abs(Fraction(float(t)) - e) for t, e in zip(trend, ex))
         chk.case(["hp_exact", n, lam, y.tolist()], True, {"n": n, "lambda": lam, "max_abs_error_vs_exact": float(err)})
